@@ -166,8 +166,10 @@ func (server *Server) ServeCodec(codec ServerCodec) {
 		ctx.codec = codec
 		data, err := messages.ReadMessage(ctx.buffer)
 		if err != nil {
+			vhook("v.eof", codec, nil, 0, 0)
 			break
 		}
+		vhook("v.recv", codec, nil, 0, 0)
 		ctx.data = data
 		if server.directIO {
 			server.ServeRequest(ctx, nil, wg, sched, nil, streams)
@@ -177,19 +179,24 @@ func (server *Server) ServeCodec(codec ServerCodec) {
 			})
 		}
 	}
+	vhook("v.wait.begin", codec, nil, 0, 0)
 	wg.Wait()
+	vhook("v.wait.end", codec, nil, 0, 0)
 	server.mutex.Lock()
 	server.deleteCodec(codec)
 	server.mutex.Unlock()
 	codec.Close()
+	vhook("v.codec.closed", codec, nil, 0, 0)
 	if sched != nil {
 		sched.Close()
 	}
 	for _, ctx := range streams {
+		vhook("v.stream.sweep", codec, ctx.stream, ctx.Seq, 0)
 		ctx.stream.Close()
 	}
 	readStream.Close()
 	pipeline.Close()
+	vhook("v.done", codec, nil, 0, 0)
 }
 
 // deleteCodec closes the specified codec.
@@ -202,6 +209,7 @@ func (server *Server) deleteCodec(codec ServerCodec) {
 func (server *Server) ServeRequest(ctx *Context, recving *sync.Mutex, wg *sync.WaitGroup, sched scheduler.Scheduler, readStream scheduler.Scheduler, streams map[uint64]*Context) error {
 	err := server.readRequestHeader(ctx)
 	if err != nil {
+		vhook("v.drop", ctx.codec, nil, 0, 0)
 		server.putUpgrade(ctx.upgrade)
 		if server.bufferPool != nil && cap(ctx.buffer) > 0 {
 			server.bufferPool.PutBuffer(ctx.buffer)
@@ -210,6 +218,7 @@ func (server *Server) ServeRequest(ctx *Context, recving *sync.Mutex, wg *sync.W
 		server.ctxPool.Put(ctx)
 		return err
 	}
+	vhook("v.dispatch", ctx.codec, nil, ctx.Seq, vupgrade(ctx.upgrade))
 	if ctx.upgrade.Heartbeat == heartbeat {
 		server.sendResponse(ctx)
 		return nil
@@ -236,11 +245,13 @@ func (server *Server) ServeRequest(ctx *Context, recving *sync.Mutex, wg *sync.W
 		var ok bool
 		if _, ok = streams[ctx.Seq]; !ok {
 			streams[ctx.Seq] = ctx
+			vhook("v.stream.open", ctx.codec, ctx.stream, ctx.Seq, 0)
 		}
 		server.handleRequest(nil, ctx)
 		return nil
 	} else if ctx.upgrade.Stream == closeStream {
 		if streamCtx, ok := streams[ctx.Seq]; ok {
+			vhook("v.stream.close", ctx.codec, streamCtx.stream, ctx.Seq, 0)
 			streamCtx.stream.Close()
 			delete(streams, ctx.Seq)
 		}
@@ -250,6 +261,7 @@ func (server *Server) ServeRequest(ctx *Context, recving *sync.Mutex, wg *sync.W
 		if streamCtx, ok := streams[ctx.Seq]; ok {
 			ctx.ctx = streamCtx
 			if readStream != nil {
+				vhook("v.wg.add", ctx.codec, nil, ctx.Seq, 2)
 				wg.Add(1)
 				readStream.Schedule(func() {
 					server.handleRequest(wg, ctx)
@@ -260,6 +272,7 @@ func (server *Server) ServeRequest(ctx *Context, recving *sync.Mutex, wg *sync.W
 		}
 		return nil
 	}
+	vhook("v.wg.add", ctx.codec, nil, ctx.Seq, 0)
 	wg.Add(1)
 	if sched != nil {
 		sched.Schedule(func() {
@@ -283,6 +296,7 @@ func (server *Server) readRequestHeader(ctx *Context) (err error) {
 }
 
 func (server *Server) handleRequest(wg *sync.WaitGroup, ctx *Context) {
+	vhook("v.handle", ctx.codec, nil, ctx.Seq, vupgrade(ctx.upgrade))
 	if wg != nil {
 		defer wg.Done()
 	}
@@ -366,6 +380,7 @@ func (server *Server) callService(ctx *Context) {
 			copy(value, ctx.value)
 			e := getEvent()
 			e.Value = value
+			vhook("v.stream.msg", ctx.codec, streamCtx.stream, ctx.Seq, 0)
 			streamCtx.stream.trigger(e)
 		}
 		server.putUpgrade(ctx.upgrade)
@@ -401,6 +416,7 @@ func (server *Server) sendResponse(ctx *Context) {
 	if len(ctx.Error) == 0 && ctx.upgrade.NoResponse != noResponse {
 		reply = ctx.reply.Interface()
 	}
+	vhook("v.respond", ctx.codec, nil, ctx.Seq, vbool(len(ctx.Error) > 0))
 	err := ctx.codec.WriteResponse(ctx, reply)
 	if err != nil {
 		server.logger.Errorln("writing response:", err)
@@ -503,6 +519,7 @@ func (server *Server) listen(sock socket.Socket, address string, New NewServerCo
 			svrctx.recving.Lock()
 			data, err := svrctx.messages.ReadMessage(ctx.buffer)
 			if len(data) > 0 {
+				vhook("v.recv", svrctx.codec, nil, 0, 1)
 				ctx.data = data
 				if server.directIO {
 					server.ServeRequest(ctx, svrctx.recving, svrctx.wg, svrctx.sched, nil, svrctx.streams)
@@ -523,12 +540,16 @@ func (server *Server) listen(sock socket.Socket, address string, New NewServerCo
 			}
 			if err == io.EOF || err == io.ErrUnexpectedEOF {
 				if atomic.CompareAndSwapInt32(&svrctx.closed, 0, 1) {
+					vhook("v.eof", svrctx.codec, nil, 0, 1)
+					vhook("v.wait.begin", svrctx.codec, nil, 0, 1)
 					svrctx.wg.Wait()
+					vhook("v.wait.end", svrctx.codec, nil, 0, 1)
 					server.mutex.Lock()
 					delete(codecs, svrctx.codec)
 					server.deleteCodec(svrctx.codec)
 					server.mutex.Unlock()
 					svrctx.codec.Close()
+					vhook("v.codec.closed", svrctx.codec, nil, 0, 1)
 					if svrctx.sched != nil {
 						svrctx.sched.Close()
 					}
@@ -538,6 +559,7 @@ func (server *Server) listen(sock socket.Socket, address string, New NewServerCo
 					if svrctx.pipeline != nil {
 						svrctx.pipeline.Close()
 					}
+					vhook("v.done", svrctx.codec, nil, 0, 1)
 				}
 			}
 			return err
